@@ -120,21 +120,23 @@ Print Assumptions C01_recreate_empty.
 
 (* ---- identity: two triples have the same key exactly when subject, predicate (id, kind, instant) and object agree
         in kind and value.  The key is the pre-image of the UUID memory.go uses; that different keys have different
-        UUIDs is property C06 (checked by the harness on every generated universe), so this clause is proved on keys. *)
+        UUIDs is property C06 (checked by the harness on every generated universe), so this clause is proved on keys.
+        The instant enters the key as [uns] = Time.UnixNano() as Go computes it, which is the instant itself between
+        1677-09-21 and 2262-04-11 and wraps outside (two such instants 2^64 ns apart are the same key: a C06 matter). *)
 Theorem C01_identity_on_keys : forall t1 t2,
   tkey_of t1 = tkey_of t2 <->
   tsub t1 = tsub t2 /\
   (pid (tpred t1) = pid (tpred t2) /\
    match panchor (tpred t1), panchor (tpred t2) with
-   | None, None => True | Some a, Some b => ns a = ns b | _, _ => False end) /\
+   | None, None => True | Some a, Some b => uns a = uns b | _, _ => False end) /\
   same_obj (tobj t1) (tobj t2).
 Proof. exact tkey_identity. Qed.
 Print Assumptions C01_identity_on_keys.
 
 (* ---- non-vacuity: a concrete history with duplicates, a zone variant, a drop and a re-creation ------------------ *)
 Definition ex_t1 := {| tsub := 0; tpred := {| pid := 0; panchor := None |}; tobj := ONode 1; trank := 0 |}.
-Definition ex_t2 := {| tsub := 0; tpred := {| pid := 0; panchor := Some {| ns := 5; off := 0 |} |}; tobj := ONode 1; trank := 1 |}.
-Definition ex_t2z := {| tsub := 0; tpred := {| pid := 0; panchor := Some {| ns := 5; off := 3600 |} |}; tobj := ONode 1; trank := 2 |}.
+Definition ex_t2 := {| tsub := 0; tpred := {| pid := 0; panchor := Some {| ns := 5; off := 0; uns := 5 |} |}; tobj := ONode 1; trank := 1 |}.
+Definition ex_t2z := {| tsub := 0; tpred := {| pid := 0; panchor := Some {| ns := 5; off := 3600; uns := 5 |} |}; tobj := ONode 1; trank := 2 |}.
 Example C01_nonvacuous :
   snd (step (run [ONew 7; OAdd 0 [ex_t1; ex_t2; ex_t1]; OAdd 0 [ex_t2z]; ORemove 0 [ex_t1]]) (OList 0)) = RTriples [ex_t2z]
   /\ snd (step (run [ONew 7; OAdd 0 [ex_t1]; ODrop 7; ONew 7]) (OGet 7)) = RHandle 1
